@@ -2,19 +2,74 @@
    Statements only; every proof is [exact lemma]. *)
 From Coq Require Import NArith ZArith List Bool.
 From Coq.Strings Require Import Byte.
-From LOF Require Import Base.Bytes Base.Res Model.Wire Model.Build Model.Parse Proofs.ParseRtP.
+From LOF Require Import Base.Bytes Base.Res Model.Wire Model.Build Model.Parse Spec.Walk Proofs.ParseRtP
+  Proofs.WalkAllP Proofs.WalkMsgP Proofs.ParseRtAllP Proofs.ParseRtAll3P Proofs.ParseRtAll4P Proofs.ParseRtAll6P Proofs.ParseRtAll7P.
 Import ListNotations.
 Open Scope N_scope.
 
-(* THE FULL STATEMENT (checked by the correspondence run on random values of every kind,
-   proved here for the examples below): parsing the encoding of an API-built message gives
-   back the built value, and re-encoding it the same bytes. *)
+(* THE FULL STATEMENT: parsing the encoding of an API-built message gives back the built
+   value, and re-encoding what was parsed gives the same bytes. *)
 Definition C05_full_statement : Prop :=
   forall m xid, xid < 4294967296 -> size (build_m xid m) <= 65535 ->
-  parse_top (fst (marshal (build_m xid m))) = Ok (snd (marshal (build_m xid m))).
+  parse_top (fst (marshal (build_m xid m))) = Ok (pview xid m) /\
+  fst (marshal (pview xid m)) = fst (marshal (build_m xid m)).
 
-(* the whole stack on rich values: a flow-mod with masked fields, conntrack + NAT, learn,
-   note, set-field, dec-ttl ids; a group-mod with buckets; a bundle-add nesting a flow-mod *)
+(* THE THEOREM, for every controller-side message recipe whose arguments fit their fields
+   ([pmsg_ok]: the hypothesis of C02/C03 with the decoder's own table instead of the
+   specification's - register numbers below 16, tunnel-metadata numbers below 8; port / queue
+   statistics requests excluded, finding D10): the parser entry point returns [pview xid m] -
+   the built value after MarshalBinary's write-backs as a wire reader sees it (a note's padding
+   belongs to the note, the port-mod address slot at its 6 bytes) with a payload child on every
+   packet-out, possibly empty - and encoding that value again gives the original bytes.
+   By induction over recipes (Proofs/ParseRtAllP.v .. ParseRtAll7P.v): every action kind,
+   conntrack nesting to any depth, match fields against the decoder's own width table (a
+   complete sweep shows it agrees with the constructors' table), instructions, buckets, the
+   thirteen message kinds, bundles nested to any depth. *)
+Theorem C05_roundtrip : forall m xid, pmsg_ok m = true -> xid < 4294967296 ->
+  let bytes := fst (marshal (build_m xid m)) in
+  parse_top bytes = Ok (pview xid m) /\ fst (marshal (pview xid m)) = bytes.
+Proof. exact parse_roundtrip. Qed.
+Print Assumptions C05_roundtrip.
+
+(* the elements on their own, in front of any following bytes *)
+Theorem C05_actions : forall a, pact_ok a = true -> forall fuel rest, (adepth a <= fuel)%nat ->
+  dec_action (S fuel) (wire (norm (build_a a)) ++ rest) = Ok (canon (norm (build_a a))).
+Proof. exact dec_built_action. Qed.
+Print Assumptions C05_actions.
+
+Theorem C05_match_fields : forall r rest, pmf_ok r = true -> dec_mf (wire (build_mf r) ++ rest) = Ok (build_mf r).
+Proof. exact dec_built_mf. Qed.
+Print Assumptions C05_match_fields.
+
+Theorem C05_instructions : forall i rest, pinstr_ok i = true ->
+  dec_instr (wire (norm (build_i i)) ++ rest) = Ok (canon (norm (build_i i))).
+Proof. exact dec_built_instr. Qed.
+Print Assumptions C05_instructions.
+
+Theorem C05_buckets : forall b rest, pbucket_ok b = true ->
+  dec_bucket (wire (norm (build_b b)) ++ rest) = Ok (canon (norm (build_b b)), false).
+Proof. exact dec_built_bucket. Qed.
+Print Assumptions C05_buckets.
+
+(* the view re-encodes to the bytes of the value (for every recipe, every xid) *)
+Theorem C05_view_reencodes : forall m, pmsg_ok m = true -> forall xid,
+  wire (norm (pview xid m)) = wire (norm (build_m xid m)) /\ glen (norm (pview xid m)) = glen (norm (build_m xid m)).
+Proof. exact Rv_all. Qed.
+Print Assumptions C05_view_reencodes.
+
+(* non-vacuity: rich recipes meet the hypothesis; and exact equality (no view needed) on
+   concrete values by computation *)
+Theorem C05_example_meets_hypothesis :
+  let r := MFlowMod 1 2 3 0 4 5 6 7 8 9 10
+    [MFStd 1 (AB []) (Some (AB [])); MFReg 3 7 (Some (4%Z, 9%Z)); MFStd 7 (AB []) None; MFTunMeta 2 [x01; x02; x03] []]
+    [IApply [(ACT [CtCommit; CtZoneImm 5] 0 [ANat [NatSNAT; NatIP4Min []; NatProtoMax 9]; ASetField (MFStd 3 (AN 2048) None)], false);
+             (ADecTtlCntIds 3 [1; 2; 3], true); (ANote [x0a; x0b; x0c; x0d; x0e; x0f; x10], false);
+             (ALearn 1 2 3 4 5 6 7 8 [LSpec 0 16 ((0,0,false,0),0) ((1,3,false,4),0) [x01;x02]; LSpec 4 8 ((1,2,false,4),0) ((0,0,false,0),0) []], false)];
+     IGoto 4; IWriteMeta 5 6] in
+  pmsg_ok r = true /\ pmsg_ok (MBundleAdd 1 2 3 (MBundleAdd 4 5 6 (MPacketOut 1 2 [AOutput 3 4] None))) = true /\ pmsg_ok (MBundleAdd 1 2 3 r) = true.
+Proof. exact c05_example_ok. Qed.
+Print Assumptions C05_example_meets_hypothesis.
+
 Theorem C05_roundtrip_examples : Forall (fun t => parse_top (fst (marshal t)) = Ok (snd (marshal t))) rt_examples.
 Proof. exact rt_examples_ok. Qed.
 Print Assumptions C05_roundtrip_examples.
